@@ -50,6 +50,7 @@ structure Live (w : World) (a : Nat) (old : Nbr) (p : PeerSt) (s : Sess) : Prop 
   peer : AList.lookup a w.peers = some p
   cur : p.cur.nbr = old
   noNext : p.next = none
+  noPrev : p.cur.prev = none      -- the definition the peer runs has reached the RIB (no reload is waiting behind it)
   noTeardown : p.teardown = false
   rib : AList.lookup a w.ribs = some s
 
@@ -73,7 +74,7 @@ theorem reload_delta_up (w : World) (c : Config) (a : Nat) (old n : Nbr) (p : Pe
   obtain ⟨hok1, hpair, _⟩ := reactorReload_ok w c hl.noPending hnodup n hn
   have hsame' : p.cur.nbr.sameSession n = true := by rw [hl.cur]; exact hsame
   rw [hl.peer, hl.rib] at hpair
-  simp only [decided, decidePeer, hl.nbr, hsame', Bool.not_true, Bool.false_eq_true, if_false, hup, if_true,
+  simp only [decided, decidePeer, hl.nbr, hl.noNext, hl.noPrev, Option.getD_none, hsame', Bool.not_true, Bool.false_eq_true, if_false, hup, if_true,
     Option.map_some] at hpair
   obtain ⟨hp', hs'⟩ := Prod.mk.inj hpair
   obtain ⟨g2, htab⟩ := reload_up_core s t g n old.plain hr hfam hok
@@ -106,7 +107,7 @@ theorem reload_delta_up_midloop (w : World) (c : Config) (a : Nat) (old n : Nbr)
   obtain ⟨_, hpair, _⟩ := reactorReload_ok w c hl.noPending hnodup n hn
   have hsame' : p.cur.nbr.sameSession n = true := by rw [hl.cur]; exact hsame
   rw [hl.peer, hl.rib] at hpair
-  simp only [decided, decidePeer, hl.nbr, hsame', Bool.not_true, Bool.false_eq_true, if_false, hup, if_true,
+  simp only [decided, decidePeer, hl.nbr, hl.noNext, hl.noPrev, Option.getD_none, hsame', Bool.not_true, Bool.false_eq_true, if_false, hup, if_true,
     Option.map_some] at hpair
   obtain ⟨hp', hs'⟩ := Prod.mk.inj hpair
   obtain ⟨_, htab⟩ := reload_up_core_xmit s t g n old.plain hr hfam hok ops hx
@@ -134,7 +135,7 @@ theorem reload_delta_down (w : World) (c : Config) (a : Nat) (old n : Nbr) (p : 
   obtain ⟨hok1, hpair, _⟩ := reactorReload_ok w c hl.noPending hnodup n hn
   have hsame' : p.cur.nbr.sameSession n = true := by rw [hl.cur]; exact hsame
   rw [hl.peer, hl.rib] at hpair
-  simp only [decided, decidePeer, hl.nbr, hsame', Bool.not_true, Bool.false_eq_true, if_false, hup,
+  simp only [decided, decidePeer, hl.nbr, hl.noNext, hl.noPrev, Option.getD_none, hsame', Bool.not_true, Bool.false_eq_true, if_false, hup,
     Option.map_some, Option.getD_some] at hpair
   obtain ⟨hp', hs'⟩ := Prod.mk.inj hpair
   obtain ⟨g3, htab⟩ := reload_down_core s d hi hw n old.plain hr hfam hok
@@ -166,7 +167,7 @@ theorem reload_delta_restart (w : World) (c : Config) (a : Nat) (old n : Nbr) (p
   obtain ⟨hok1, hpair, _⟩ := reactorReload_ok w c hl.noPending hnodup n hn
   have hsame' : p.cur.nbr.sameSession n = false := by rw [hl.cur]; exact hsame
   rw [hl.peer, hl.rib] at hpair
-  simp only [decided, decidePeer, hl.nbr, hsame', Bool.not_false, if_true, Option.map_some] at hpair
+  simp only [decided, decidePeer, hl.nbr, hl.noNext, hl.noPrev, Option.getD_none, hsame', Bool.not_false, if_true, Option.map_some] at hpair
   obtain ⟨hp', hs'⟩ := Prod.mk.inj hpair
   obtain ⟨a1, a2, a3, a4, _, _, a7⟩ := attach_props s n hr.adj hcw.1
   have hcw0 : CacheWF (attach (some s) n).rib := ⟨a3, by rw [a1]; exact hcw.2⟩
@@ -436,5 +437,52 @@ example : (((reactorReload wLive cfgOld none).1.loopTop 1).drain 1).2 = [] := by
 /-- F3 on its own: `replace_reload([A/x],[A/y])` without the insertion by `attach_ribs()` announces nothing. -/
 example : (((Sess.init true [1]).step (.add (rt 1 1 1 1) false)).1.drain.1.step
     (.reload [rt 1 1 1 1] [rt 1 1 2 1])).1.drain.2 = [] := by decide
+
+/-! ### a reload which finds a definition that never reached the RIB (finding F106) -/
+
+/-- What the definition a peer holds last (`_neighbor` when one is pending, `neighbor` otherwise) has not
+    yet applied to the RIB. -/
+def unapplied (p : PeerSt) : Option (List Route) := (p.next.getD p.cur).prev
+
+/-- **The decision, stated outright.**  When the definition the peer holds never reached the RIB
+    (`unapplied p = some x`: a re-establishment is pending for it, or it waits for the loop top), a reload keeps
+    `x` as what the RIB reflects, whatever the configuration's own previous definition `cfgPrev` is:
+    * same session parameters, session down: `replace_reload(x, new routes)` runs now and the link is consumed;
+    * same session parameters, session up: the new definition waits for the loop top with the link `x`;
+    * other session parameters: the new definition waits for the re-establishment with the link `x`. -/
+theorem reload_keeps_unapplied_link (cfgPrev : Option (List Route)) (n : Nbr) (p : PeerSt) (s : Sess) (x : List Route)
+    (hx : unapplied p = some x) :
+    (p.cur.nbr.sameSession n = true → p.up = false →
+      decidePeer cfgPrev n (some p) (some s) =
+        ({ p with cur := { nbr := n, prev := none }, next := none },
+         some { s with rib := s.rib.replaceReload x n.plain })) ∧
+    (p.cur.nbr.sameSession n = true → p.up = true →
+      (decidePeer cfgPrev n (some p) (some s)).1.next = some { nbr := n, prev := some x }) ∧
+    (p.cur.nbr.sameSession n = false →
+      (decidePeer cfgPrev n (some p) (some s)).1.next = some { nbr := n, prev := some x } ∧
+      (decidePeer cfgPrev n (some p) (some s)).1.teardown = true) := by
+  unfold unapplied at hx
+  refine ⟨?_, ?_, ?_⟩
+  · intro h1 h2; simp [decidePeer, hx, h1, h2]
+  · intro h1 h2; simp [decidePeer, hx, h1, h2]
+  · intro h1; simp [decidePeer, hx, h1]
+
+/-- ... and when nothing is unapplied the configuration's previous definition is the link, as before. -/
+theorem reload_link_is_previous (cfgPrev : Option (List Route)) (n : Nbr) (p : PeerSt) (s : Sess)
+    (hx : unapplied p = none) (h1 : p.cur.nbr.sameSession n = true) (h2 : p.up = false) :
+    decidePeer cfgPrev n (some p) (some s) =
+      ({ p with cur := { nbr := n, prev := none }, next := none },
+       some { s with rib := s.rib.replaceReload (cfgPrev.getD []) n.plain }) := by
+  unfold unapplied at hx
+  simp [decidePeer, hx, h1, h2]
+
+-- the history of F106: N0 = routes 1, 2; reload 1 (other hold-time, route 2 removed) is pending when the session
+-- ends; reload 2 (route 1 only, same hold-time as reload 1) finds the peer down: the RIB is brought from N0 to N2
+example :
+    let r1 : Route := { nlri := 1, attr := 1, nh := 1, fam := 1 }
+    let r2 : Route := { nlri := 2, attr := 1, nh := 1, fam := 1 }
+    let n1 : Nbr := { name := 1, key := 2, fams := [1], adjOut := true, routes := [{ r := r1 }] }
+    let p : PeerSt := { cur := { nbr := n1, prev := some [r1, r2] }, next := none, up := false, teardown := false }
+    unapplied p = some [r1, r2] := by decide
 
 end Exa.Props.C17
